@@ -39,6 +39,7 @@ C2 = dict(type="x-unreg", spec_version="2.1", id=XID, created="2020-01-01T00:00:
 C0 = dict(type="x-unreg", spec_version="2.1", id=XID, created="2020-01-01T00:00:00Z", modified="2020-01-01T00:00:00Z", name="c0")
 C3 = dict(type="x-unreg", spec_version="2.1", id=XID, created="2020-01-01T00:00:00Z", modified="2020-01-01T00:00:02.0004Z", name="c3")
 C4 = dict(type="x-unreg", spec_version="2.1", id=XID, created="2020-01-01T00:00:00Z", modified="2020-01-01T00:00:02.0009Z", name="c4")   # same millisecond as C3
+CU = dict(type="x-unreg", spec_version="2.1", id="x-unreg--" + U + "8", name="cu")     # no 'modified': stored unversioned, in the same type directory as C0..C4
 T5ID = "tool--e1d2f3a4-5b6c-51ea-8d7e-0123456789ab"          # UUIDv5-shaped id (legal in 2.1), the only id of its type directory
 TOOL5A = dict(type="tool", spec_version="2.1", id=T5ID, created=T1, modified=T1, name="t5a")
 TOOL5B = dict(type="tool", spec_version="2.1", id=T5ID, created=T1, modified=T2, name="t5b")
@@ -47,7 +48,7 @@ IDENT1 = dict(type="identity", spec_version="2.1", id=I1ID, created=T1, modified
 RID = "x-verif-obj--" + U + "6"
 R1 = dict(type="x-verif-obj", spec_version="2.1", id=RID, created=T1, modified=T1, prop="r1")
 R2 = dict(type="x-verif-obj", spec_version="2.1", id=RID, created=T1, modified=T2, prop="r2")
-IDS = [A, SCO["id"], OLD20["id"], MD["id"], XID, RID, T5ID, I1ID, "campaign--" + U + "9"]
+IDS = [A, SCO["id"], OLD20["id"], MD["id"], XID, RID, T5ID, I1ID, "campaign--" + U + "9", CU["id"]]
 TYPES = ["campaign", "ipv4-addr", "marking-definition", "x-unreg", "x-verif-obj", "tool", "identity", "malware"]
 
 
@@ -86,13 +87,14 @@ def EVENTS():
         "reg1": (lambda: O(R1), [R1]), "reg2-dict": (lambda: copy.deepcopy(R2), [R2]),
         "c0": (lambda: copy.deepcopy(C0), [C0]), "c1": (lambda: copy.deepcopy(C1), [C1]), "c2": (lambda: copy.deepcopy(C2), [C2]),
         "mix-list": (lambda: [O(V2), copy.deepcopy(C1), O(SCO)], [V2, C1, SCO]),
+        "cu": (lambda: copy.deepcopy(CU), [CU]),
         "c3": (lambda: copy.deepcopy(C3), [C3]), "c4-text": (lambda: json.dumps(C4), [C4]),
         "tool5a": (lambda: O(TOOL5A), [TOOL5A]), "tool5b-dict": (lambda: copy.deepcopy(TOOL5B), [TOOL5B]), "ident1": (lambda: O(IDENT1), [IDENT1]),
     }
 
 
 QUICK_EVENTS = ["v1-obj", "v2-obj", "v3-obj", "v1-dict", "v2-dict-6digits", "v3-list", "v1v3-bundle-obj", "v2-bundle-dict", "v1-text", "v2x-obj",
-                "sco", "old20-dict", "md", "reg2-dict", "c0", "c1", "c2", "mix-list", "c3", "c4-text", "tool5a", "tool5b-dict", "v3us-obj"]
+                "sco", "old20-dict", "md", "reg2-dict", "c0", "c1", "c2", "mix-list", "c3", "c4-text", "tool5a", "tool5b-dict", "v3us-obj", "cu"]
 ALL_EVENTS = QUICK_EVENTS + ["reg1", "ident1"]
 
 
@@ -203,7 +205,7 @@ def observe(store, part, what):
 
 def feature_of(id_):
     return {A: "versioned-sdo", SCO["id"]: "unversioned-sco", OLD20["id"]: "v20-sdo", MD["id"]: "marking-definition", XID: "unregistered-dict",
-            RID: "registered-custom", T5ID: "uuid5-id", I1ID: "uuid1-id"}.get(id_, "absent-id")
+            RID: "registered-custom", T5ID: "uuid5-id", I1ID: "uuid1-id", CU["id"]: "unversioned-unregistered-dict"}.get(id_, "absent-id")
 
 
 def compare(sname, obs, model, part, case, conflicted):
@@ -280,7 +282,7 @@ def run_history(case, part):
         mm, fm = Model(), Model()
         conflicted = set()
         seen_content = {}
-        for name in hist:
+        for step, name in enumerate(hist):
             factory, atoms = ev[name]
             for a in atoms:
                 k = (a["id"], instant_of(a))
@@ -334,6 +336,11 @@ def run_history(case, part):
                 part.violation("C11/fs/add-raises/%s/%s" % (type(e).__name__, name), "FileSystemStore.add raises on a documented input form",
                                dict(case, event=name), "added", "%s: %s" % (type(e).__name__, str(e)[:200]))
                 fm = before
+            if case.get("reads") == "interleaved" and step < len(hist) - 1:
+                # lock-step: read through the SAME store objects after every add (whatever a read caches must not outlive the next add)
+                step_case = dict(case, after_step=step)
+                compare("mem", observe(mem, part, "mem"), mm, part, step_case, conflicted)
+                compare("fs", observe(fs, part, "fs"), fm, part, step_case, conflicted)
         part.evaluations += 1
         mobs = observe(mem, part, "mem")
         fobs = observe(fs, part, "fs")
@@ -402,9 +409,15 @@ def run(run):
             cases.append({"history": list(h), "saveload": False})
     for h in itertools.product(["v1-obj", "v2-dict-6digits", "v3-list", "c1", "c2", "sco", "md", "mix-list"], repeat=2):
         cases.append({"history": list(h), "bundlify": True})
+    # the same histories with a full read after EVERY add (depth 2: all events; depth 3: the events that share an id or a type directory)
+    shared = ["v1-obj", "v2-dict-6digits", "v3us-obj", "old20-dict", "cu", "c1", "c2", "c4-text", "mix-list", "md", "sco", "tool5a", "tool5b-dict"]
+    for h in itertools.product(names, repeat=2):
+        cases.append({"history": list(h), "reads": "interleaved", "saveload": False})
+    for h in itertools.product(shared if not th else names, repeat=3):
+        cases.append({"history": list(h), "reads": "interleaved", "saveload": False})
     run.mode = "BFS (tree, no state merging: every order of additions is executed)"
     run.rule = ("all add-histories of length <= %d over %d add events%s on MemoryStore and FileSystemStore side by side; states = distinct (memory contents, filesystem "
-                "contents) reached; non-trivial = more than one stored version" % (depth, len(names), " + length 4 over 13 core events" if th else ""))
+                "contents) reached; non-trivial = more than one stored version; the histories of length 2 (all events) and 3 (%s) are also run with a complete read after every add" % (depth, len(names), " + length 4 over 13 core events" if th else "", "all events" if th else "13 events sharing ids / type directories"))
     run.bound = {"history_length": depth, "events": names, "ids": len(IDS), "bundlify_histories": 64}
     run.assumptions += ["list model in mc/checks/c11_stores.py (multiset of added atoms; distinct versions = distinct (id, instant))",
                         "scratch directories under /dev/shm, removed after each history"]
